@@ -85,10 +85,13 @@ def unquote(string, only_printable=False, unsafe=None, normalize_space=False):
 # NOTE: to safely unquote we don't need to replace invalid character because it would
 # imply that the parsed url was invalid from the start (except for spaces)
 
-UNSAFE_FOR_AUTH_ITEM = b" @:"
-UNSAFE_FOR_PATH = b" ?#"
-UNSAFE_FOR_QUERY_ITEM = b" &=#"
-UNSAFE_FOR_FRAGMENT = b" "
+# NOTE: "%" itself must remain escaped, else the result would be decoded twice
+# by whoever unquotes it next. The same goes for any character delimiting the
+# component (or changing its meaning such as "+" in a query).
+UNSAFE_FOR_AUTH_ITEM = b" %@:/?#"
+UNSAFE_FOR_PATH = b" %/?#"
+UNSAFE_FOR_QUERY_ITEM = b" %&=#+"
+UNSAFE_FOR_FRAGMENT = b" %"
 
 # NOTE: those method should only be used on parsed urls to canonicalize/normalize.
 safely_unquote_auth_item = partial(
